@@ -82,6 +82,13 @@ class _Merge:
                 for x in v["ex"]:
                     if len(e["ex"]) < 3:
                         e["ex"].append(x)
+                    elif _plain(x) and not _plain(e["ex"][0]):
+                        e["ex"][0] = x  # first slot prefers an example without Null / Any (easier to read)
+
+
+def _plain(ex):
+    text = " ".join(str(x) for x in (ex.get("text"), ex.get("value_text"), ex.get("target_text")) if x is not None)
+    return "Null" not in text and "Any" not in text and "null" not in text
 
 
 def _bad_record(rep, res, case, cls):
@@ -180,7 +187,8 @@ def run(rep, tier, seed):
     reduced = []
     if thorough:
         reduced = [
-            (["Any", "Null", "number"], 1, 1, 64),
+            (["Any", "Null", "number", "string"], 1, 1, 16),
+            (["Any", "Null", "number"], 1, 1, 32),
             (["Any", "Null"], 2, 1, 8),
             (["Null", "number"], 2, 1, 8),
             (["Any", "number"], 2, 1, 8),
@@ -199,7 +207,7 @@ def run(rep, tier, seed):
             vtags, vcases = [t for t, _ in sub], [c for _, c in sub]
         else:
             vtags, vcases = tags, cases
-        results, _ = runner.run_cases(variant, vcases, rep.workdir, label="c16", case_timeout=240.0 if thorough else 60.0)
+        results, _ = runner.run_cases(variant, vcases, rep.workdir, label="c16", case_timeout=900.0 if thorough else 90.0)
         _digest(rep, variant, vtags, vcases, results, thorough, reduced)
 
 
